@@ -6,6 +6,7 @@
    Receive-path half: see the C03_receive_* theorems below (model of the discovery endpoint). *)
 From PS Require Import Lib.Base Lib.Struct Generated.Consts Model.SdTypes Model.Someip Model.SdCodec.
 From PS Require Import Proofs.C01Proofs Proofs.SdEntryProofs Proofs.SdTotalProofs.
+From PS Require Import Model.Config Model.Session Model.StackTypes Model.Stack Model.Skel Generated.LogicGen Proofs.GenSkel.
 
 Theorem C03_someip_error_kinds : forall b e, parse_msg b = Err e -> e = EParse \/ e = EIncomplete.
 Proof. exact parse_error_kinds. Qed.
@@ -31,6 +32,23 @@ Proof. exact parse_sd_err. Qed.
 Theorem C03_sd_suffix : forall b h r, parse_sd b = Ok (h, r) -> exists c, b = c ++ r.
 Proof. exact parse_sd_suffix. Qed.
 
+(* ServiceDiscoveryProtocol.message_received is the control flow translated from the source text of sd.py on every run: a
+   message that is not an SD notification, or whose payload does not decode, does NOTHING (empty action list) - in
+   particular the session state is rewritten and a reboot is acted on only after the payload decoded *)
+Theorem C03_message_received_is_the_translated_source : forall m a mc w,
+  message_received m a mc w
+  = match parse_sd (m_payload m) with
+    | Ok (h, _) =>
+        fold_left (run_mact m h a mc)
+          (gen_message_received (is_sd_message m) true (fst (check_received (sess w) a mc (sd_reboot h) (m_sess m)))) w
+    | Err _ => fold_left (run_mact m (mkSd [] [] false false 0) a mc) (gen_message_received (is_sd_message m) false false) w
+    end.
+Proof. exact message_received_is_the_translated_source. Qed.
+Theorem C03_rejected_message_has_no_action : forall reboot, gen_message_received false true reboot = [] /\ gen_message_received true false reboot = [].
+Proof. intros reboot. split; reflexivity. Qed.
+
+Print Assumptions C03_message_received_is_the_translated_source.
+Print Assumptions C03_rejected_message_has_no_action.
 Print Assumptions C03_someip_error_kinds.
 Print Assumptions C03_someip_suffix.
 Print Assumptions C03_datagram_loop_terminates.
